@@ -155,8 +155,12 @@ def law_history(ch):
             compare(op.name, cl, cs, where)
         done.append(op.name)
         nl, ns = first_array(rL), first_array(rS)
-        if nl is not None and ns is not None and nl.fermionic and \
-                nl.ndim <= 5:
+        if (nl is not None and ns is not None and nl.fermionic
+                and nl.ndim <= 5 and op.group != "linalg"
+                and op.name != "isfinite"):
+            # (factors of a decomposition are only defined up to a gauge and
+            # boolean arrays carry no signs: the history does not continue
+            # from them)
             L, S = nl, ns
     # closing laws
     import symmray as sr
@@ -182,8 +186,87 @@ def law_history(ch):
     ch.mark_nontrivial(hits >= 1 and len(done) >= 2)
 
 
+def law_linalg(ch):
+    """decompositions and solve on specifically generated lazy matrices
+    (Hermitian-able / square systems are too rare in random histories)"""
+    import symmray as sr
+
+    kind = ch.choice(["eigh", "eigh", "solve", "solve", "qr", "svd",
+                      "svd_truncated"], "kind")
+    if kind == "eigh":
+        spec = ch.draw(gen.matrix_specs(ferm=True, hermitian=True,
+                                        lazy=False), "m")
+        h = gen.build(spec)
+        if not h.blocks:
+            return
+        h = h + h.H
+        rec = ch.draw(gen.phase_recipe(2, len(h.blocks), p_none=0.0), "recipe")
+        L = gen.apply_phase_recipe(h, rec, sorted(h.blocks))
+        S = L.phase_sync()
+        args = {}
+    elif kind == "solve":
+        spec = ch.draw(gen.matrix_specs(ferm=True, square=True, lazy=True),
+                       "a")
+        symm = spec["symm"]
+        if G.parity(symm, spec["charge"]):
+            return  # open finding C11 solve:fermionic-odd-matrix
+        L = gen.build(spec)
+        S = L.phase_sync()
+        ix0 = spec["idxs"][0]
+        c_b = ch.choice(sorted(ix0["cm"]), "b-sector")
+        bspec = ch.draw(gen.array_specs(
+            symm=symm, ferm=True, idxs=[ix0],
+            charge=G.signed(symm, c_b, ix0["dual"]), dyn=spec["dyn"],
+            dtype=spec["dtype"], data="gauss", label=777), "b")
+        bL = gen.build(bspec)
+        bS = bL.phase_sync()
+        if not bL.blocks or not L.blocks:
+            return
+        okL, xL = attempt(sr.linalg.solve, L, bL)
+        okS, xS = attempt(sr.linalg.solve, S, bS)
+        require(okL == okS, "solve:raises-on-one-copy-only", "")
+        if okL:
+            same_array(xL, xS, "solve:lazy-vs-synced", exact=False,
+                       K=64, scale=1.0 + max(
+                           [float(np.abs(v).max()) for v in xS.blocks.values()]
+                           or [0.0]))
+        pending = any(L.phases.get(s, 1) == -1 for s in L.blocks) or any(
+            bL.phases.get(s, 1) == -1 for s in bL.blocks)
+        ch.label("kind=solve")
+        ch.mark_nontrivial(pending)
+        return
+    else:
+        spec = ch.draw(gen.matrix_specs(ferm=True, lazy=True), "m")
+        L = gen.build(spec)
+        if not L.blocks:
+            return
+        S = L.phase_sync()
+        args = {}
+        if kind == "qr":
+            args = {"stabilized": ch.boolean("stab")}
+        if kind == "svd_truncated":
+            args = ops._draw_svdt(ch, L, "t")
+    op = ops.OPS[kind]
+    if kind == "eigh":
+        fn = lambda m: sr.linalg.eigh(m)
+    else:
+        fn = lambda m: op.apply(m, args)
+    okL, rL = attempt(fn, L)
+    okS, rS = attempt(fn, S)
+    require(okL == okS, f"{kind}:raises-on-one-copy-only",
+            f"{rS if okL else rL}")
+    if okL:
+        compare(kind, canon(kind, rL), canon(kind, rS), f"{kind} {args}")
+    pending = any(L.phases.get(s, 1) == -1 for s in L.blocks)
+    ch.label(f"kind={kind}")
+    ch.mark_nontrivial(pending)
+
+
 LAWS = [
     Law("history", law_history, quick=3000, thorough=60000,
         doc="same operation history on a lazy and a synchronised copy; "
             "results equal after every step; sync laws at the end"),
+    Law("linalg", law_linalg, quick=1500, thorough=20000,
+        doc="eigh / solve / qr / svd / svd_truncated on generated lazy "
+            "matrices vs their synchronised copies"),
 ]
